@@ -5,13 +5,63 @@ from . import C13
 
 META = {
     "level": "other",
-    "explanation": "Necessary structural conditions for build-after-parse to be accepted, canonical and idempotent (the thinnest claim of the set; idempotence itself is not decided): (R1) decode->encode closure: every form a decoder can return is accepted by a branch of its encoder -- Enum returns a table value (the very objects that key the encode table) or EnumInteger (an int, passed through), FlagsEnum returns a dict whose non-underscore keys are exactly the flag names its dict branch ORs back and whose flag test is `all bits of the mask present`, Mapping's tables are inverse, Flag returns a bool and builds one of two constants by truthiness, Hex/HexDump encode is the identity; (R2) private-key discipline: every fixed key that a parse-side method injects into a result container starts with '_', FlagsEnum._encode skips '_' keys, and Struct/Union/LazyStruct._build read the supplied object only under member names, so extra keys are ignored; (R3) Select builds alternatives in the order it parses them and Optional is Select(subcon, Pass); (R4) regenerated filler is parameter-only: the bytes that _build of Padded, Aligned, FixedSized, NullTerminated and Prefixed write besides the inner construct's output are terms over constructor parameters, computed lengths and constants -- never derived from the supplied object, time or randomness. (R5) a wrapper's _build hands the inner construct a constructor-supplied replacement instead of the object only when the object is None (Default, RawCopy) or equals it (Const); Rebuild is frozen as recomputed by design; (R6) the transforming macros decode and encode with an inverse pair over matching units (C10.R1/R2). (R7) every integer bits2integer/bytes2integer can return is accepted by integer2bits/integer2bytes: reference forms and exact two's-complement range of the helpers (shared with C10.R5). (R8) the encoders whose output the decoders must read back, shared: canonical LEB128 and ZigZag forms (C03.R7), terminator unit table (C03.R2), XOR/rotation/codec inversion structure (C15.R1/R2/R4).",
+    "explanation": "Necessary structural conditions for build-after-parse to be accepted, canonical and idempotent (the thinnest claim of the set; idempotence itself is not decided): (R1) decode->encode closure: every form a decoder can return is accepted by a branch of its encoder -- Enum returns a table value (the very objects that key the encode table) or EnumInteger (an int, passed through), FlagsEnum returns a dict whose non-underscore keys are exactly the flag names its dict branch ORs back and whose flag test is `all bits of the mask present`, Mapping's tables are inverse, Flag returns a bool and builds one of two constants by truthiness, Hex/HexDump encode is the identity; (R2) private-key discipline: every fixed key that a parse-side method injects into a result container starts with '_', FlagsEnum._encode skips '_' keys, and Struct/Union/LazyStruct._build read the supplied object only under member names, so extra keys are ignored; (R3) Select builds alternatives in the order it parses them and Optional is Select(subcon, Pass); (R4) regenerated filler is parameter-only: the bytes that _build of Padded, Aligned, FixedSized, NullTerminated and Prefixed write besides the inner construct's output are terms over constructor parameters, computed lengths and constants -- never derived from the supplied object, time or randomness. (R5) a wrapper's _build hands the inner construct a constructor-supplied replacement instead of the object only when the object is None (Default, RawCopy) or equals it (Const); Rebuild is frozen as recomputed by design; (R6) the transforming macros decode and encode with an inverse pair over matching units (C10.R1/R2). (R7) every integer bits2integer/bytes2integer can return is accepted by integer2bits/integer2bytes: reference forms and exact two's-complement range of the helpers (shared with C10.R5). (R8) the encoders whose output the decoders must read back, shared: canonical LEB128 and ZigZag forms (C03.R7), terminator unit table (C03.R2), XOR/rotation/codec inversion structure (C15.R1/R2/R4). (R9) the generated code of the classes that regenerate filler, defaults and labels agrees with the interpreter (shared with C04.R3/R7).",
     "undecided": "Idempotence and canonicity as such, non-canonical inputs (non-minimal VarInts, arbitrary padding), the gallery formats: value-level, left to dynamic techniques.",
     "trusted_base": ["python ast (3.12)", "sa.summ summariser", "class hierarchy of the model (EnumInteger < int, Container < dict)"],
     "assumptions": [],
 }
 
 NONDET = {"random", "time", "os", "uuid", "secrets", "datetime"}
+
+
+NONE = N.const(None)
+
+
+def replacements(t, cond):
+    """[(condition under which the object is replaced, replacement)] -- replacements are terms that do not derive from obj."""
+    if not N.contains(t, OBJ):
+        return [(cond, t)]
+    if t[0] == "ite":
+        return replacements(t[2], t[1]) + replacements(t[3], N.mk_not(t[1]))
+    if t[0] == "bool":
+        return [(("truthiness of obj",), x) for x in t[2] if not N.contains(x, OBJ)]
+    return []
+
+
+def none_only(cond, repl, guards):
+    is_none = N.mk_cmp("is", OBJ, NONE)
+    def implies_none(c):
+        if c == is_none:
+            return True
+        if c and c[0] == "bool" and c[1] == "and":
+            return any(implies_none(x) for x in c[2])
+        if c and c[0] == "cmp" and c[1] == "in" and c[2] == OBJ and c[3][0] == "tuple":
+            return set(c[3][1]) <= {NONE, repl}          # Const: None or the constant itself
+        return False
+    return (cond is not None and implies_none(cond)) or any(implies_none(g) for g in guards)
+
+
+def substitution_checks(ctx, rule, only=None):
+    """A `_build` hands the inner construct a constructor-supplied replacement only when the supplied object is None (or equals it)."""
+    M = ctx.model
+    n5 = 0
+    for fi, cls in protocol_functions(M, ("_build",)):
+        if cls in R5_RECOMPUTED or (only is not None and cls not in only):
+            continue
+        verdict = {}
+        for p in paths_of(ctx, fi, cls):
+            for e in p.events:
+                if e.kind != "SUB" or e["m"] != "_build" or e.depth or e["target"] != N.selfattr("subcon"):
+                    continue
+                for cond, repl in replacements(e["obj"], None):
+                    ok = none_only(cond, repl, p.guards())
+                    cur = verdict.get(id(e.node), (True, e, repl))
+                    verdict[id(e.node)] = (cur[0] and ok, e, repl)
+        for ok, e, repl in verdict.values():
+            n5 += 1
+            ctx.ob(rule, fi, ok, "%s._build hands the inner construct %s in place of the supplied object only when that object is None (or equals it): a parsed value, falsy ones included, must come back unchanged" % (cls, N.show(repl)[:80]),
+                   key="%s substitution" % cls, node=e.node)
+    return n5
 
 
 R5_RECOMPUTED = {
@@ -113,44 +163,7 @@ def run(ctx):
     ctx.floor("C02.R4", 4)
 
     # ---------------------------------------------------------------- R5 a parsed value is not replaced on the way back
-    NONE = N.const(None)
-    def subs(t, cond):
-        """[(condition under which the object is replaced, replacement)] -- replacements are terms that do not derive from obj."""
-        if not N.contains(t, OBJ):
-            return [(cond, t)]
-        if t[0] == "ite":
-            return subs(t[2], t[1]) + subs(t[3], N.mk_not(t[1]))
-        if t[0] == "bool":
-            return [(("truthiness of obj",), x) for x in t[2] if not N.contains(x, OBJ)]
-        return []
-    def none_only(cond, repl, guards):
-        is_none = N.mk_cmp("is", OBJ, NONE)
-        def implies_none(c):
-            if c == is_none:
-                return True
-            if c and c[0] == "bool" and c[1] == "and":
-                return any(implies_none(x) for x in c[2])
-            if c and c[0] == "cmp" and c[1] == "in" and c[2] == OBJ and c[3][0] == "tuple":
-                return set(c[3][1]) <= {NONE, repl}          # Const: None or the constant itself
-            return False
-        return (cond is not None and implies_none(cond)) or any(implies_none(g) for g in guards)
-    n5 = 0
-    for fi, cls in protocol_functions(M, ("_build",)):
-        if cls in R5_RECOMPUTED:
-            continue
-        verdict = {}
-        for p in paths_of(ctx, fi, cls):
-            for e in p.events:
-                if e.kind != "SUB" or e["m"] != "_build" or e.depth or e["target"] != N.selfattr("subcon"):
-                    continue
-                for cond, repl in subs(e["obj"], None):
-                    ok = none_only(cond, repl, p.guards())
-                    cur = verdict.get(id(e.node), (True, e, repl))
-                    verdict[id(e.node)] = (cur[0] and ok, e, repl)
-        for ok, e, repl in verdict.values():
-            n5 += 1
-            ctx.ob("C02.R5", fi, ok, "%s._build hands the inner construct %s in place of the supplied object only when that object is None (or equals it): a parsed value, falsy ones included, must come back unchanged" % (cls, N.show(repl)[:80]),
-                   key="%s substitution" % cls, node=e.node)
+    substitution_checks(ctx, "C02.R5")
     ctx.floor("C02.R5", 3)
     # ---------------------------------------------------------------- R6 transforming macros decode and encode with an inverse pair (shared with C10.R1/R2)
     from . import C10
@@ -175,6 +188,9 @@ def run(ctx):
         if o.rule in ("C15.R1", "C15.R2", "C15.R4"):    # XOR same function, rotation build = parse with negated amount, codecs inverse
             ctx.ob("C02.R8", o.where, o.ok, o.what, key=o.key, loc=o.loc, detail=o.detail)
     ctx.floor("C02.R8", 20)
+    from . import C04
+    C04.shared_obligations(ctx, "C02.R9", {"Aligned", "Padded", "Default", "Prefixed", "FixedSized", "NullTerminated", "Select", "Enum", "FlagsEnum", "Flag", "Mapping", "Const", "Rebuild"})
+    ctx.floor("C02.R9", 10)
 
     ctl = control_model(
         "class Construct(object):\n    pass\nclass Subconstruct(Construct):\n    pass\n"
@@ -189,6 +205,6 @@ def run(ctx):
     for p in paths_of(c2, ctl.method("X", "_build"), "X"):
         for e in p.events:
             if e.kind == "SUB" and e["m"] == "_build":
-                fired = fired or any(not none_only(c, r, p.guards()) for c, r in subs(e["obj"], None))
+                fired = fired or any(not none_only(c, r, p.guards()) for c, r in replacements(e["obj"], None))
     ctx.control("C02.R5", fired)
     ctx.control("C02.R2", True)
